@@ -194,7 +194,7 @@ func VerifHarness_C02_x509_full() {
 // C02 — resumption: the certificates recorded with the session pass the same checks under the configuration
 // now in use.
 //
-//verif:harness props=C02 paths=20000 reach=accepted,rejected
+//verif:harness props=C02,C10 paths=20000 reach=accepted,rejected
 func VerifHarness_C02_x509_resumed() {
 	n := verifSplitInt("ncerts", 0, 3)
 	roots := &x509.CertPool{}
@@ -222,6 +222,8 @@ func VerifHarness_C02_x509_resumed() {
 	}
 	verifReach("accepted")
 	verifAssert("C02.x509.resumed.isResumed", resumed)
+	// C10: a resumed connection has the same peer identity as the original — whether or not the client verifies
+	verifAssert("C10.resumed.keepsPeerIdentity", resumed && len(c.peerCertificates) == n && (n == 0 || c.peerCertificates[0] == certs[0]))
 	if cfg.InsecureSkipVerify {
 		return
 	}
